@@ -10,7 +10,7 @@
    frames), so no decoder can run longer than the input it is given; the only
    unbounded recursion of the code (frame reassembly) recurses on the input. *)
 From Coq Require Import List NArith ZArith.
-From Cedar Require Import Lib.Bytes gen.Consts Model.Msg Model.Decode Proofs.C13 Proofs.C13ad Proofs.C13raw.
+From Cedar Require Import Lib.Bytes gen.Consts Model.Msg Model.Decode Model.Sinful Proofs.C13 Proofs.C13ad Proofs.C13raw Proofs.C13sinful.
 Import ListNotations.
 Local Open Scope N_scope.
 
@@ -162,3 +162,50 @@ Print Assumptions C13_session_info_total.
 Theorem C13_unfixed_get_lstr_refuted : exists fs, snd (get_lstr_unfixed (reader_of fs)) = MPanic.
 Proof. exact unfixed_get_lstr_panics. Qed.
 Print Assumptions C13_unfixed_get_lstr_refuted.
+
+(* ---- addresses.ParseSinful (Model/Sinful.v) -------------------------------------------- *)
+(* No slice expression of ParseSinful, splitHostPort, parseSinfulParams or SplitCCBContact
+   can go out of range, for ANY byte string (valid UTF-8 or not). *)
+Theorem C13_sinful_total : forall addr : bytes, parse_sinful addr <> None.
+Proof. exact parse_sinful_total. Qed.
+Print Assumptions C13_sinful_total.
+
+(* Everything ParseSinful returns is cut out of its input: the primary address and the query
+   are disjoint pieces of it, host and port are the two sides of one colon of the primary (or
+   both empty), there are at most (separators + 1) parameters, every decoded key/value pair is
+   no longer than the query, and every CCB contact has a non-empty broker and id.  The model
+   functions are single structural passes (fuel = length where a rune can be 2-3 bytes), so
+   the work is linear in the input. *)
+Theorem C13_sinful_bounded :
+  forall (addr : bytes) (r : sinful), parse_sinful addr = Some r ->
+  exists q,
+    cut_query (sinful_input addr) = Some (sf_primary r, q) /\
+    lenN (sf_primary r) + lenN q <= lenN addr /\
+    ((sf_host r = [] /\ sf_port r = []) \/ lenN (sf_host r) + lenN (sf_port r) + 1 = lenN (sf_primary r)) /\
+    (length (sf_params r) <= count_sep is_param_sep q + 1)%nat /\
+    Forall (fun kv => lenN (fst kv) + lenN (snd kv) <= lenN q) (sf_params r) /\
+    Forall (fun t => fst (fst t) <> [] /\ snd (fst t) <> []) (sf_ccb r).
+Proof. exact parse_sinful_bounded. Qed.
+Print Assumptions C13_sinful_bounded.
+
+(* The only error ParseSinful can return is a malformed %XX escape: a query without '%'
+   always parses.  (The code validates nothing else: host and port are not checked.) *)
+Theorem C13_sinful_error_needs_percent :
+  forall (addr : bytes) (r : sinful) (q : bytes),
+    parse_sinful addr = Some r -> cut_query (sinful_input addr) = Some (sf_primary r, q) ->
+    no_percent q -> sf_err r = false.
+Proof. exact parse_sinful_error_needs_percent. Qed.
+Print Assumptions C13_sinful_error_needs_percent.
+
+(* non-vacuity: a full sinful string, and an error that still reports the primary address *)
+Example C13_sinful_example :
+  (* "<h:1?sock=a%41&ccbid=b:2%23x&noUDP>" *)
+  option_map (fun r => (sf_err r, sf_host r, sf_port r, sf_sock r, sf_noudp r, sf_ccb r))
+    (parse_sinful [x3c; x68; x3a; x31; x3f; x73; x6f; x63; x6b; x3d; x61; x25; x34; x31; x26; x63; x63; x62; x69; x64; x3d;
+                   x62; x3a; x32; x25; x32; x33; x78; x26; x6e; x6f; x55; x44; x50; x3e])
+  = Some (false, [x68], [x31], [x61; x41], true, [([x62; x3a; x32], [x78], [x62; x3a; x32; x23; x78])])
+  /\ (* "<h:1?a=%zz>" *)
+  option_map (fun r => (sf_err r, sf_primary r, sf_params r))
+    (parse_sinful [x3c; x68; x3a; x31; x3f; x61; x3d; x25; x7a; x7a; x3e])
+  = Some (true, [x68; x3a; x31], []).
+Proof. split; vm_compute; reflexivity. Qed.
